@@ -197,6 +197,15 @@ def check_c17(run):
     mc(run, "cap1.cfg", pool_cfg(3, 1, 2, True, 0, 1, invs))
     mc(run, "cap2.cfg", pool_cfg(4 if not quick else 3, 2, 3, True, 0, 1, invs))
     mc(run, "live.cfg", pool_cfg(3, 1, 2, True, 0, 1, prop="AllReturn", spec="MCFair"))
+    # the bookkeeping invariant for an UNBOUNDED number of requests: inductive invariant discharged by Apalache
+    if getattr(run, "collect", None) is None:
+        ok = (run.apalache("PoolInd.tla", "Init", "IndInv", 0) and run.apalache("PoolInd.tla", "IndInit", "IndInv", 1)
+              and run.apalache("PoolInd.tla", "IndInit", "AtMostMax", 0))
+        if not ok:
+            raise Infra("Apalache did not discharge the inductive invariant of PoolInd.tla")
+        run.cov["inductive_invariant"] = ("PoolInd.tla: Init => IndInv, IndInv /\\ Next => IndInv', IndInv => AtMostMax discharged by Apalache "
+                                          "(4 instances, unboundedly many requests)")
+        run.log("Apalache: inductive invariant of the instance bookkeeping discharged (unbounded requests)")
     g = gen(run, "SPECIFICATION GSpec\nCONSTANTS\n  GOps = 1\n  GBurst = %d\n  GIso = 2\n" % (4 if quick else 5))
     sessions = []
     recs = g["capacity"]
